@@ -20,6 +20,7 @@ UNITS = ['OV_isResultOfOp', 'OV_getLocation1', 'OV_isResultOfOpPoint', 'OV_resul
 BIN = {'INT': (1, 'GEOSIntersection_r'), 'UNI': (2, 'GEOSUnion_r'), 'DIF': (3, 'GEOSDifference_r'), 'SYM': (4, 'GEOSSymDifference_r')}
 UNA = {'UU': 'GEOSUnaryUnion_r', 'UC': 'GEOSUnionCascaded_r', 'DSU': 'GEOSDisjointSubsetUnion_r', 'CU': 'GEOSCoverageUnion_r'}
 GC_EMPTY = ('GC', [])
+SUBNORMAL = [False]        # thorough tier: let the ulp jitter of a zero ordinate be the subnormal 2^-1074
 
 
 class Case:
@@ -105,7 +106,7 @@ class Runner:
             want = bool(stats) and (stats is True or len(lines) % int(stats) == 0)
             lines.append('CHK %s%s %d %d %d %d %d %s %s %s' % (mode, 's' if want else '', op, tn, td, en, ed, L.text_int(Ai), L.text_int(Bi), L.text_int(Ri)))
             owners.append(c)
-        vouts = self.par_lines([self.drv], lines, timeout=900, chunk=4)
+        vouts = self.par_lines([self.drv], lines, timeout=900, chunk=8)
         for c, v, ln in zip(owners, vouts, lines):
             c.verdict = v
             if '#' in v:
@@ -291,6 +292,7 @@ def gen_cases(ctx, rng, n_pairs, n_unary, n_full, n_near):
             cases.append(Case('UU', L.map_pts(('GC', els), f), family='full', label='unary'))
     # near-coincident edges (snapping rungs)
     for i in range(n_near):
+        SUBNORMAL[0] = (not ctx.quick) and i % 50 == 0
         for A, B, lab in near_coincident(rng):
             cases += [Case(k, A, B, family='near', label=lab) for k in ('INT', 'UNI', 'DIF', 'SYM')]
     return cases
@@ -307,7 +309,9 @@ def near_coincident(rng):
         # every vertex of B moved by a few ulps
         def jig(p):
             import math
-            return tuple(v + rng.choice([-2, -1, 0, 0, 1, 2]) * math.ulp(v) for v in p)
+            # (an ordinate that is exactly 0 is moved by 2^-60, not by the subnormal ulp of 0: the exact checker would need
+            #  1100-bit integers for one case; the thorough tier draws a few of those separately)
+            return tuple(v + rng.choice([-2, -1, 0, 0, 1, 2]) * (math.ulp(v) if v != 0 else (2.0 ** -60 if not SUBNORMAL[0] else math.ulp(0.0))) for v in p)
         ring = [jig(p) for p in Af[1][0][:-1]]
         out.append((Af, ('PG', [ring + [ring[0]]]), 'ulp-jitter'))
     elif k < 0.7:
@@ -443,7 +447,7 @@ def run(ctx):
         return replay(ctx, runner)
     rng = random.Random(ctx.seed)
     if ctx.quick:
-        n_pairs, n_unary, n_full, n_near = 150, 50, 24, 10
+        n_pairs, n_unary, n_full, n_near = 100, 30, 16, 6
     else:
         n_pairs, n_unary, n_full, n_near = 2500, 800, 400, 200
     cases = corpus_cases() + gen_cases(ctx, rng, n_pairs, n_unary, n_full, n_near)
